@@ -127,6 +127,21 @@ Definition ctx_err_sites : list (string * string) :=
   [("interp.checkContextNow", "");
    ("interp.callBuiltin", "err != nil");
    ("interp.callBuiltin", "err != nil && p.checkCtx && p.ctx.Err() != nil")].
+Definition exec_shell_body : list string :=
+  ["executable := p.shellCommand[0]";
+   "args := p.shellCommand[1:]";
+   "args = append(args, code)";
+   "var cmd *exec.Cmd";
+   "if p.checkCtx { cmd = exec.CommandContext(p.ctx, executable, args...) } else { cmd = exec.Command(executable, args...) }";
+   "cmd.WaitDelay = 250 * time.Millisecond";
+   "return cmd"].
+Definition exec_shell_returns : list (string * string) :=
+  [("cmd", "yes")].
+Definition exec_shell_makes : list (string * string) :=
+  [("CommandContext", "cmd");
+   ("Command", "cmd")].
+Definition waitdelay_writes : list (string * string) :=
+  [("interp.execShell", "cmd.WaitDelay = 250 * time.Millisecond")].
 Definition command_sites : list (string * string * string) :=
   [("interp.execShell", "CommandContext", "p.checkCtx");
    ("interp.execShell", "Command", "!(p.checkCtx)")].
